@@ -56,6 +56,11 @@ let pr_result f = function
   | Fatal c -> Buffer.add_string b "FATAL "; pi (int_of_nat c)
   | OutOfFuel -> Buffer.add_string b "FUEL"
 
+let pr_message m =
+  pr_nat m.m_offset; pr_nat m.m_length;
+  pr_str m.m_context.cx_text; pr_nat m.m_context.cx_offset;
+  pr_nat m.m_context.cx_length
+
 let dispatch op r =
   match op with
   | "replace_phrases" ->
@@ -65,6 +70,13 @@ let dispatch op r =
   | "finditer" ->
       let ws = rd_list r rd_str in let txt = rd_str r in
       pr_list (fun (s, m) -> pr_nat s; pr_nat m) (m_finditer ws txt)
+  | "single_letters" ->
+      let plain = rd_str r in let has = rd_bool r in let opt = rd_str r in
+      pr_list pr_message
+        (m_single_letter_matches plain (if has then Some opt else None))
+  | "equation" ->
+      let plain = rd_str r in let pls = rd_list r rd_str in
+      pr_list pr_message (m_equation_messages plain pls)
   | _ -> raise Not_found
 
 let () =
